@@ -2,6 +2,7 @@ import GB.C04.Refine
 import GB.C04.StageOracle
 import GB.C04.WF
 import GB.C04.B64
+import GB.C04.TextProofs
 import GB.Generated.Facts
 /-
   C04 — transcoded requests populate the gRPC message per the http.proto binding rules.
@@ -433,6 +434,150 @@ example : parseBytes [65, 81, 73, 68] = some [1, 2, 3]                       -- 
     ∧ parseBytes [65, 82, 61, 61] = some [1]                                  -- "AR==" (non-zero trailing bits)
     ∧ parseBytes [] = some [] := by
   decide
+
+/-! ## text forms of well-known types in path / query parameters (round 5)
+
+  Modelled as coded (internal/gwquery parseMessage), no oracle: the wrappers Int64Value / Int32Value / UInt64Value /
+  UInt32Value / BoolValue / StringValue / BytesValue (the scalar parsers above + `{value: v}`), FieldMask (UTF-8 check,
+  `strings.Split(",")`), and — new — Duration: `time.ParseDuration` (sign, `([0-9]*(\.[0-9]*)?unit)+`, units
+  ns us µs μs ms s m h, the 2^63 overflow checks in their places) followed by `durationpb.New`. The one place where Go
+  leaves integer arithmetic — a fraction with more digits than the unit has decimal places, multiplied through float64 —
+  is outside the model (`parseDurationGo = none`: post-library oracle, as float / double / Timestamp / Struct / Value).
+  Differential cases: `pf Duration <text>` (≈ 1000 quick), and every tc/ts/st case with Duration-typed fields. -/
+
+/-- **Duration, accepted text**: the message is `durationpb.New(ns)` for the int64 nanosecond count `ns` the text
+    denotes — seconds and nanos of the same sign, |nanos| < 10^9, seconds·10^9 + nanos = ns: the value is never
+    altered on the way into the message. -/
+theorem C04_duration_text_accepted (orc : Oracle) (t : Bytes) (ns : Int) (h : parseDurationGo t = some (some ns)) :
+    parseMessage orc wDuration t = .ok (durationEntries ns)
+    ∧ -(2 ^ 63 : Int) ≤ ns ∧ ns < 2 ^ 63
+    ∧ Int.tdiv ns 1000000000 * 1000000000 + Int.tmod ns 1000000000 = ns
+    ∧ -1000000000 < Int.tmod ns 1000000000 ∧ Int.tmod ns 1000000000 < 1000000000
+    ∧ (0 ≤ ns → 0 ≤ Int.tdiv ns 1000000000 ∧ 0 ≤ Int.tmod ns 1000000000)
+    ∧ (ns ≤ 0 → Int.tdiv ns 1000000000 ≤ 0 ∧ Int.tmod ns 1000000000 ≤ 0) := by
+  have h1 : (wDuration = wInt64) = False := by decide
+  have h2 : (wDuration = wInt32) = False := by decide
+  have h3 : (wDuration = wUInt64) = False := by decide
+  have h4 : (wDuration = wUInt32) = False := by decide
+  have h5 : (wDuration = wBool) = False := by decide
+  have h6 : (wDuration = wString) = False := by decide
+  have h7 : (wDuration = wBytes) = False := by decide
+  have h8 : (wDuration = wFieldMask) = False := by decide
+  obtain ⟨r1, r2⟩ := parseDurationGo_range t ns h
+  obtain ⟨s1, s2, s3, s4, s5⟩ := duration_split ns
+  exact ⟨by simp [parseMessage, h, h1, h2, h3, h4, h5, h6, h7, h8], r1, r2, s1, s2, s3, s4, s5⟩
+
+/-- **Duration, rejected text** (no digits, missing / unknown unit, a component or the sum beyond int64 nanoseconds,
+    junk): InvalidArgument — never a clamped or wrapped value, never Internal. -/
+theorem C04_duration_text_rejected (orc : Oracle) (t : Bytes) (h : parseDurationGo t = some none) :
+    parseMessage orc wDuration t = .error .invalidArgument := by
+  have h1 : (wDuration = wInt64) = False := by decide
+  have h2 : (wDuration = wInt32) = False := by decide
+  have h3 : (wDuration = wUInt64) = False := by decide
+  have h4 : (wDuration = wUInt32) = False := by decide
+  have h5 : (wDuration = wBool) = False := by decide
+  have h6 : (wDuration = wString) = False := by decide
+  have h7 : (wDuration = wBytes) = False := by decide
+  have h8 : (wDuration = wFieldMask) = False := by decide
+  simp [parseMessage, h, h1, h2, h3, h4, h5, h6, h7, h8]
+
+/-- **Duration, canonical proto3 JSON text** `"<seconds>.<fraction>s"` (decimal seconds, at most 9 fraction digits — the
+    form protojson emits), within the int64 nanosecond range: accepted, with exactly the value the canonical mapping
+    assigns, seconds·10^9 + fraction·10^(9−k) nanoseconds. (Beyond ±2^63 ns — canonical JSON allows ±10000 years — the
+    code rejects: `C04_duration_text_rejected`; it additionally accepts Go's forms `1h2m`, `100ms`, `+3s`, `.5s`.) -/
+theorem C04_duration_text_canonical (ds fs : Bytes) (hds : ds.all isDigit = true) (hne : ds ≠ [])
+    (hfs : fs.all isDigit = true) (hk : fs.length ≤ 9)
+    (hr : digitsVal 0 ds * 1000000000 + digitsVal 0 fs * 10 ^ (9 - fs.length) ≤ 9223372036854775807) :
+    parseDurationGo (ds ++ 46 :: (fs ++ [115])) =
+      some (some ((digitsVal 0 ds * 1000000000 + digitsVal 0 fs * 10 ^ (9 - fs.length) : Nat) : Int)) :=
+  parseDurationGo_canonical ds fs hds hne hfs hk hr
+
+/-- kernel-evaluated instances: "1.5s", "-2h3m", "100ms", "+3s", ".5s", "0", the int64 edge
+    "2562047h47m16.854775807s" (accepted) / "…808s" (rejected) / "-…808s" (accepted: MinInt64), "1", "1d", "1 s", ""
+    (rejected), "1.5ns" and "0.0000000001s" (float64 rounding: outside the model). -/
+example :
+    parseDurationGo [49, 46, 53, 115] = some (some 1500000000)
+    ∧ parseDurationGo [45, 50, 104, 51, 109] = some (some (-7380000000000))
+    ∧ parseDurationGo [49, 48, 48, 109, 115] = some (some 100000000)
+    ∧ parseDurationGo [43, 51, 115] = some (some 3000000000)
+    ∧ parseDurationGo [46, 53, 115] = some (some 500000000)
+    ∧ parseDurationGo [48] = some (some 0)
+    ∧ parseDurationGo [49] = some none
+    ∧ parseDurationGo [49, 100] = some none
+    ∧ parseDurationGo [49, 32, 115] = some none
+    ∧ parseDurationGo [] = some none
+    ∧ parseDurationGo [49, 46, 53, 110, 115] = none
+    ∧ parseDurationGo [48, 46, 48, 48, 48, 48, 48, 48, 48, 48, 48, 49, 115] = none
+    ∧ durationEntries 1500000000 = [([nSeconds], .single (.int 1)), ([nNanos], .single (.int 500000000))]
+    ∧ durationEntries (-1500000000) = [([nSeconds], .single (.int (-1))), ([nNanos], .single (.int (-500000000)))] := by
+  decide
+
+/-- **Wrappers and FieldMask are fully modelled**: the result does not depend on the oracle table, an accepted text
+    gives `{value: v}` for the value the scalar parser of the wrapped kind yields (`C04_int_text`, `C04_uint_text`,
+    `C04_bool_text`, `C04_string_text`, `C04_bytes_text`: ranges per kind, leading '+' and leading zeros accepted for the
+    signed / all integer kinds as `strconv` does, no hex, no underscores, no spaces), a rejected text is InvalidArgument. -/
+theorem C04_wrapper_text (orc : Oracle) (t : Bytes) :
+    parseMessage orc wInt64 t = (optToExcept (parseInt t 64)).map (fun i => wrapperEntries (.int i))
+    ∧ parseMessage orc wInt32 t = (optToExcept (parseInt t 32)).map (fun i => wrapperEntries (.int i))
+    ∧ parseMessage orc wUInt64 t = (optToExcept (parseUint t 64)).map (fun n => wrapperEntries (.int (Int.ofNat n)))
+    ∧ parseMessage orc wUInt32 t = (optToExcept (parseUint t 32)).map (fun n => wrapperEntries (.int (Int.ofNat n)))
+    ∧ parseMessage orc wBool t = (optToExcept (parseBool t)).map (fun b => wrapperEntries (.bool b))
+    ∧ parseMessage orc wString t = (if validUTF8 t then .ok (wrapperEntries (.bytes t)) else .error .invalidArgument)
+    ∧ parseMessage orc wBytes t = (optToExcept (parseBytes t)).map (fun b => wrapperEntries (.bytes b))
+    ∧ parseMessage orc wFieldMask t =
+        (if validUTF8 t then .ok [([nPaths], .list ((splitOnByte 44 t).map .bytes))] else .error .invalidArgument) := by
+  have a1 : (wInt32 = wInt64) = False := by decide
+  have b1 : (wUInt64 = wInt64) = False := by decide
+  have b2 : (wUInt64 = wInt32) = False := by decide
+  have c1 : (wUInt32 = wInt64) = False := by decide
+  have c2 : (wUInt32 = wInt32) = False := by decide
+  have c3 : (wUInt32 = wUInt64) = False := by decide
+  have d1 : (wBool = wInt64) = False := by decide
+  have d2 : (wBool = wInt32) = False := by decide
+  have d3 : (wBool = wUInt64) = False := by decide
+  have d4 : (wBool = wUInt32) = False := by decide
+  have e1 : (wString = wInt64) = False := by decide
+  have e2 : (wString = wInt32) = False := by decide
+  have e3 : (wString = wUInt64) = False := by decide
+  have e4 : (wString = wUInt32) = False := by decide
+  have e5 : (wString = wBool) = False := by decide
+  have f1 : (wBytes = wInt64) = False := by decide
+  have f2 : (wBytes = wInt32) = False := by decide
+  have f3 : (wBytes = wUInt64) = False := by decide
+  have f4 : (wBytes = wUInt32) = False := by decide
+  have f5 : (wBytes = wBool) = False := by decide
+  have f6 : (wBytes = wString) = False := by decide
+  have g1 : (wFieldMask = wInt64) = False := by decide
+  have g2 : (wFieldMask = wInt32) = False := by decide
+  have g3 : (wFieldMask = wUInt64) = False := by decide
+  have g4 : (wFieldMask = wUInt32) = False := by decide
+  have g5 : (wFieldMask = wBool) = False := by decide
+  have g6 : (wFieldMask = wString) = False := by decide
+  have g7 : (wFieldMask = wBytes) = False := by decide
+  refine ⟨?_, ?_, ?_, ?_, ?_, ?_, ?_, ?_⟩
+  · simp [parseMessage]
+  · simp [parseMessage, a1]
+  · simp [parseMessage, b1, b2]
+  · simp [parseMessage, c1, c2, c3]
+  · simp [parseMessage, d1, d2, d3, d4]
+  · simp [parseMessage, e1, e2, e3, e4, e5]
+  · simp [parseMessage, f1, f2, f3, f4, f5, f6]
+  · simp [parseMessage, g1, g2, g3, g4, g5, g6, g7]
+
+/-- a rejected wrapper / FieldMask / in-domain Duration text is InvalidArgument, whatever the oracle table holds -/
+theorem C04_wkt_text_rejected_invalidArgument (orc : Oracle) (ref : Name) (t : Bytes) (e : Err)
+    (href : ref = wInt64 ∨ ref = wInt32 ∨ ref = wUInt64 ∨ ref = wUInt32 ∨ ref = wBool ∨ ref = wString ∨ ref = wBytes ∨ ref = wFieldMask)
+    (h : parseMessage orc ref t = .error e) : e = .invalidArgument := by
+  obtain ⟨w1, w2, w3, w4, w5, w6, w7, w8⟩ := C04_wrapper_text orc t
+  rcases href with rfl | rfl | rfl | rfl | rfl | rfl | rfl | rfl
+  · rw [w1] at h; exact map_optToExcept_err h
+  · rw [w2] at h; exact map_optToExcept_err h
+  · rw [w3] at h; exact map_optToExcept_err h
+  · rw [w4] at h; exact map_optToExcept_err h
+  · rw [w5] at h; exact map_optToExcept_err h
+  · rw [w6] at h; split at h <;> simp at h; exact h.symm
+  · rw [w7] at h; exact map_optToExcept_err h
+  · rw [w8] at h; split at h <;> simp at h; exact h.symm
 
 /-! ## no model-input fault on well-formed inputs -/
 
